@@ -364,8 +364,13 @@ def _always_raises(stmts):
     return False
 
 
-def _wexpr(fn, e, param):
+def _wexpr(fn, e, param, local=None):
     s = _src(e)
+    if isinstance(e, ast.Name) and local and e.id in local:
+        if local[e.id][1]:
+            _fail(fn, e, 'local context %s entered more than once' % e.id)
+        local[e.id][1] = True
+        return local[e.id][0]
     if isinstance(e, ast.Call) and _src(e.func) in ('ag_ctx.ControlStatusCtx', 'ControlStatusCtx'):
         if e.args:
             return 'WFresh ' + _status_of(fn, e.args[0])
@@ -388,12 +393,21 @@ def _wcode(fn, stmts, callee, param):
     def contains_callee(node):
         return any(is_callee_call(n) for n in ast.walk(node))
 
+    local = {}     # name -> [wexpr of the fresh context it is bound to, used?]
+
     def one(s):
         if isinstance(s, ast.With):
+            items = [_wexpr(fn, it.context_expr, param, local) for it in s.items]
             inner = seq(s.body)
-            for it in reversed(s.items):
-                inner = '(WWith (%s) %s)' % (_wexpr(fn, it.context_expr, param), inner)
+            for w in reversed(items):
+                inner = '(WWith (%s) %s)' % (w, inner)
             return inner
+        # name = ControlStatusCtx(status=...)  : a fresh context bound to a local, to be entered by ONE with statement
+        if isinstance(s, ast.Assign) and len(s.targets) == 1 and isinstance(s.targets[0], ast.Name) and \
+                isinstance(s.value, ast.Call) and _src(s.value.func) in ('ag_ctx.ControlStatusCtx', 'ControlStatusCtx') \
+                and s.targets[0].id not in local:
+            local[s.targets[0].id] = [_wexpr(fn, s.value, param), False]
+            return 'WSkip'
         if isinstance(s, ast.Try):
             if s.orelse:
                 _fail(fn, s, 'try/else in a wrapper')
@@ -454,7 +468,6 @@ def _functions(repo):
         import textwrap
         return ast.parse(textwrap.dedent(ts[0].value.value)), ts[0]
     t, node = template('visit_FunctionDef')
-    code = _wcode(fn, t.body, callee=lambda c: False, param=None) if False else None
     if not (len(t.body) == 1 and isinstance(t.body[0], ast.With) and len(t.body[0].items) == 1
             and _src(t.body[0].items[0].context_expr.func) == 'ag__.FunctionScope'
             and len(t.body[0].body) == 1 and _src(t.body[0].body[0]) == 'body'):
